@@ -75,6 +75,7 @@ func (c14) Gen(r *Rng, tier string, run int) *Trace {
 	pushLike := func(obj int, args []Val) {
 		before := len(g.m.S[obj].Elems)
 		g.emit(Op{Obj: obj, M: "Push", Args: args}, false)
+		args = g.last.Args // a bulk Push offers more than was asked for
 		n := len(g.m.S[obj].Elems) - before
 		if n > 0 {
 			g.emit(Op{Obj: twin, M: "Push", Args: args[:n], Tag: "twin"}, false)
